@@ -235,6 +235,13 @@ fn iso(d: i32) -> String {
 pub fn iso_date(d: i32) -> String {
     iso(d)
 }
+pub fn from_iso(s: &str) -> Option<i32> {
+    let base = chrono::NaiveDate::from_ymd_opt(2020, 1, 1).unwrap();
+    chrono::NaiveDate::parse_from_str(s, "%Y-%m-%d").ok().map(|d| (d - base).num_days() as i32)
+}
+pub fn comm_of(name: &str) -> Option<usize> {
+    COMMODITIES.iter().position(|x| *x == name)
+}
 
 pub fn db_text(db: &[PLine], r_style: u64) -> String {
     let mut s = String::new();
